@@ -10,7 +10,7 @@ ALGS = ("DE", "NSDE", "GDE3", "GDE3MNN", "NSDER")
 class C17(Check):
     ID = "C17"
     IMPORTS = hist.IMPORTS
-    QUICK_N = 14
+    QUICK_N = 24
     THOROUGH_N = 120
     CASE_TIMEOUT = 300
     RULE = ("for random configurations of DE / NSDE / GDE3 / GDE3MNN / NSDE-R: (1) the run in a fresh interpreter is the reference; (2) in this process, after other workloads "
@@ -18,7 +18,7 @@ class C17(Check):
             "configuration and seed must reproduce the reference generation by generation (fingerprints of X, F, G and of the optimum), also when the run itself uses the "
             "default termination; (3) minimize must end in the reference's last population; (4) ask-and-tell with the offspring evaluated outside the algorithm one by one "
             "other problems driven through ask-and-tell / minimize(copy_algorithm=False) on algorithm objects that share the default operator instances; in shuffled order, and in batches, must reproduce the reference; (5) __dict__ of the shared default operator instances is compared before/after; "
-            "(6) the run repeated while numpy.empty / empty_like return arrays pre-filled with small in-range integers / 0.5 must reproduce the reference (nothing may read uninitialised memory); in addition one run per case is compared with the Coq model step by step (as in C06-C08); non-trivial = at least 3 generations compared; distinct by hash")
+            "(6) the run repeated while numpy.empty / empty_like return arrays pre-filled with small in-range integers / 0.5 must reproduce the reference (nothing may read uninitialised memory); in addition one run per case is compared with the Coq model step by step (as in C06-C08); non-trivial = at least 3 generations compared; distinct by hash; one case in four or five is a multi-feature scenario taken in turn and run in a process of its own (the algorithm's default survival object after a run on an unconstrained problem, now on a problem with 20-80% feasible points; constraint-ranking or default survival with a small feasible region reached one member at a time; single-objective DE with a minimal population on a coarse plateau, 8 generations; constraint-ranking survival with two constraints and at most 30% feasible points; the dither range as one shared float array)")
     ASSUMPTIONS = ["the model is a function of the recorded draws and oracle answers (no hidden state by construction); that the Python objects have no further state "
                    "(module globals, shared default-argument instances, numpy's global generator) is an observation of these paired runs: partial",
                    "numpy.random.seed(seed) determines the draw stream (numpy, trusted)"]
@@ -26,6 +26,8 @@ class C17(Check):
     def gen(self, n):
         for i in range(n):
             cfg = hist.gen_hist_case(self.rng, algs=ALGS, n_gen=self.rng.choice([4, 5]))
+            if i % 4 == 3:
+                cfg = hist.gen_scenario_case(self.rng, 5 + i // 4, ALGS, n_gen=5) or cfg       # multi-feature scenarios in turn, starting with the shared F array
             cfg["default_termination"] = self.rng.random() < 0.35
             cfg["workloads"] = self.rng.sample(["other-minimize", "aborted", "default-term-asktell", "none", "other-asktell", "other-asktell", "other-nocopy"], 2)
             if i % 4 == 2 and cfg["alg"] != "NSDER":
